@@ -831,17 +831,23 @@ int htp_parse_uri(bstr *input, htp_uri_t **uri) {
                     (*uri)->hostname = bstr_dup_mem(hostname_start, hostname_len);
                     if ((*uri)->hostname == NULL) return HTP_ERROR;
                 } else {
-                    (*uri)->hostname = bstr_dup_mem(hostname_start, m - hostname_start + 1);
+                    // Is there a port? Look for it after the closing bracket.
+                    unsigned char *rest_start = m + 1;
+                    size_t rest_len = hostname_len - (rest_start - hostname_start);
+
+                    m = memchr(rest_start, ':', rest_len);
+                    if (m != NULL) {
+                        // Anything between the closing bracket and the port stays
+                        // in the hostname, where validation will flag it.
+                        hostname_len = m - hostname_start;
+                    }
+
+                    (*uri)->hostname = bstr_dup_mem(hostname_start, hostname_len);
                     if ((*uri)->hostname == NULL) return HTP_ERROR;
 
-                    // Is there a port?
-                    hostname_len = hostname_len - (m - hostname_start + 1);
-                    hostname_start = m + 1;
-
                     // Port string
-                    m = memchr(hostname_start, ':', hostname_len);
                     if (m != NULL) {
-                        size_t port_len = hostname_len - (m - hostname_start) - 1;
+                        size_t port_len = rest_len - (m - rest_start) - 1;
                         (*uri)->port = bstr_dup_mem(m + 1, port_len);
                         if ((*uri)->port == NULL) return HTP_ERROR;
                     }
